@@ -99,6 +99,15 @@ class State:
         self.lists[lid] = vl
         return VListRef(lid)
 
+    def freeze(self, ref: 'VListRef') -> 'VListRef':
+        """mark a list object as a COPY of contents held elsewhere (a list stored in a read-only dict): mutating it would not reach the original, so any
+        mutation leaves the modelled subset"""
+        self.notes['frozen_lists'] = frozenset(self.notes.get('frozen_lists', frozenset()) | {ref.lid})
+        return ref
+
+    def is_frozen(self, ref) -> bool:
+        return isinstance(ref, VListRef) and ref.lid in self.notes.get('frozen_lists', ())
+
     def lst(self, v) -> VList:
         if isinstance(v, VListRef):
             return self.lists[v.lid]
